@@ -319,6 +319,125 @@ def check_concurrent(run: lib.Run, mod) -> None:
                                           "complete ones (or temp files were left)", "bad": bad[:3], "bad_count": len(bad), "left": left})
 
 
+# ============================================================================= a writer in the middle of an observation
+
+
+def check_midcall(run: lib.Run, mod) -> None:
+    """the file is replaced WHILE etag() runs — before/after each of its file-system accesses (stat, open, every read, close).
+    Whatever that call returns, the observations AFTER it see unchanged content that differs from the old one in size and mtime:
+    they must report the tag a brand-new source computes for the disk as it is (and so differ from the old content's tag)."""
+    import builtins
+    import types
+    for ext in (".json", ".yaml"):
+        for mt in (False, True):
+            with tempfile.TemporaryDirectory(prefix="rbacx-verif-c16-") as d:
+                path = os.path.join(d, TARGET[ext])
+                old, new = (OLD_DOC, NEW_DOC) if ext == ".json" else (OLD_YAML, NEW_YAML)
+
+                def put(text, ns):
+                    with builtins.open(path, "wb") as f:
+                        f.write(text.encode())
+                    os.utime(path, ns=(BASE_NS + ns, BASE_NS + ns))
+
+                # count the accesses of one etag() on a fresh source
+                def traced(src, fire_at, when):
+                    n = [0]
+
+                    def point(kind):
+                        def pre():
+                            n[0] += 1
+                            if when == "before" and n[0] == fire_at:
+                                put(new, 7)
+
+                        def post():
+                            if when == "after" and n[0] == fire_at:
+                                put(new, 7)
+                        return pre, post
+
+                    class F:
+                        def __init__(self, f):
+                            self._f = f
+
+                        def read(self, *a):
+                            pre, post = point("read")
+                            pre()
+                            r = self._f.read(*a)
+                            post()
+                            return r
+
+                        def __enter__(self):
+                            return self
+
+                        def __exit__(self, *a):
+                            pre, post = point("close")
+                            pre()
+                            self._f.close()
+                            post()
+                            return False
+
+                        def __getattr__(self, k):
+                            return getattr(self._f, k)
+
+                        def __iter__(self):
+                            return iter(self._f)
+
+                    def h_open(*a, **k):
+                        pre, post = point("open")
+                        pre()
+                        f = builtins.open(*a, **k)
+                        post()
+                        return F(f)
+
+                    def h_stat(*a, **k):
+                        pre, post = point("stat")
+                        pre()
+                        r = os.stat(*a, **k)
+                        post()
+                        return r
+                    saved_os, had_open = mod.os, "open" in vars(mod)
+                    saved_open = vars(mod).get("open")
+                    ns = types.SimpleNamespace(**{k: getattr(os, k) for k in dir(os) if not k.startswith("__")})
+                    ns.stat = h_stat
+                    ns.path = os.path
+                    mod.os, mod.open = ns, h_open
+                    try:
+                        try:
+                            first = src.etag()
+                        except Exception as e:  # noqa: BLE001
+                            first = f"<raised {type(e).__name__}>"
+                    finally:
+                        mod.os = saved_os
+                        if had_open:
+                            mod.open = saved_open
+                        else:
+                            del mod.open
+                    return first, n[0]
+
+                put(old, 1)
+                _, total = traced(mod.FilePolicySource(path, include_mtime_in_etag=mt), -1, "before")
+                old_tag = mod.FilePolicySource(path, include_mtime_in_etag=mt).etag()
+                for warm in (False, True):
+                    for k in range(1, total + 1):
+                        for when in ("before", "after"):
+                            put(old, 1)
+                            src = mod.FilePolicySource(path, include_mtime_in_etag=mt)
+                            if warm:
+                                src.etag()
+                                os.utime(path, ns=(BASE_NS + 2, BASE_NS + 2))     # make the warm source hash again
+                            first, _ = traced(src, k, when)
+                            later = [src.etag(), src.etag()]
+                            fresh = mod.FilePolicySource(path, include_mtime_in_etag=mt).etag()
+                            run.evaluations += 1
+                            run.count("midcall")
+                            run.nontrivial.add(f"midcall{ext}{mt}{warm}{k}{when}")
+                            if later[0] != fresh or later[1] != fresh or fresh == old_tag:
+                                run.spec_failures.append({"label": f"midcall{ext}", "kind": "midcall", "ext": ext, "include_mtime": mt,
+                                                          "warm_cache": warm, "write_at_access": k, "when": when, "accesses_of_etag": total,
+                                                          "what": "the file was replaced (other size, other mtime) while etag() was running; the observations "
+                                                                  "made afterwards do not report the tag of what is on disk",
+                                                          "during": first, "afterwards": later, "fresh_source": fresh, "old_tag": old_tag})
+
+
 # ============================================================================= histories of the file source
 
 # content pool: index → text.  0/1/2 have the same size; 3 is YAML only; 4 is a YAML list (not a mapping);
@@ -585,7 +704,8 @@ def shrink_history(mod, case: dict) -> dict:
 def check(run: lib.Run, audit: dict) -> int:
     run.rule = ("atomic_write: a fault at every step of the traced program (raise ×3 exception kinds, also after 0/1/half/all bytes of "
                 "f.write; os._exit in a forked child and SIGKILL in a child interpreter after every prefix) × scenarios (replace/create, "
-                "json/yaml) + provoked real errors; a reader between every two steps; reader thread vs writer thread. "
+                "json/yaml) + provoked real errors; a reader between every two steps; reader thread vs writer thread; the file replaced before/after "
+                "every file-system access of a running etag() (cold and warm cache, both tag modes). "
                 "file source: every history over {4 writes (same-size pairs, 2 mtimes), touch, delete, etag, load} of length ≤4 (quick) / "
                 "{6 writes, 2 touches, …} ≤5 (thorough) ending in an observation × (extension, include_mtime, write mechanism) configs + "
                 "seeded random histories of length ≤30 + directed ones. non-trivial = a fault that fired / a history with a modification "
@@ -595,7 +715,9 @@ def check(run: lib.Run, audit: dict) -> int:
         "kernel rename(2) atomicity and mkstemp name freshness are trusted (one model step; hypotheses tmp ≠ target, temp name fresh)",
         "cannot exhibit: power-loss durability (no fsync in atomic_write – outside the statement)",
         "sha256 is injective on the contents used (hypothesis `Function.Injective sha` of the theorems)",
-        "histories are sequential at operation granularity (a modification between etag()'s stat and its hash is a race the statement does not quantify over)",
+        "histories are sequential at operation granularity in the model (FileSource.etag is one step); a writer in the middle of an etag() call "
+        "is exercised on the real code only: the file is replaced before/after every file-system access of etag() and the observations made "
+        "afterwards must equal a fresh source's tag (check_midcall) — what the racing call itself returns is not judged",
         "the proviso of the property (a content change keeping size and mtime is outside the claim) is applied between consecutive tag "
         "observations; tags after the first out-of-claim observation of a history are compared with the model but not judged by the spec",
         "model paths are ASCII (`_detect_format` lower-cases with str.lower)",
@@ -611,6 +733,7 @@ def check(run: lib.Run, audit: dict) -> int:
     check_faults(run, mod, program)
     check_instants(run, mod)
     check_concurrent(run, mod)
+    check_midcall(run, mod)
     check_histories(run, mod)
     if (run.disagreements or not ok) and not run.spec_failures:
         # a proof obligation or the correspondence broke: widen the search for a failing input on the real code
@@ -620,7 +743,7 @@ def check(run: lib.Run, audit: dict) -> int:
     violations = []
     if run.spec_failures:
         # the most concrete witness first: a fault point, then a history, then the interleaving / thread observations
-        rank = {None: 0, "history": 1, "instants": 2, "concurrent": 3}
+        rank = {None: 0, "history": 1, "midcall": 1, "instants": 2, "concurrent": 3}
         c = min(run.spec_failures, key=lambda x: rank.get(x.get("kind"), 4))
         if c.get("kind") == "history":
             c = shrink_history(mod, c)
